@@ -20,7 +20,7 @@ PROP = 'C03'
 PROOF_MODULES = ['Ladybug.Props.C03']
 GREP_MODULES = ['Ladybug.Py', 'Ladybug.Model.Cal', 'Ladybug.Model.AP', 'Ladybug.Model.Group',
                 'Ladybug.Model.Stats', 'Ladybug.Proofs.C03Dict', 'Ladybug.Proofs.C03Cont',
-                'Ladybug.Proofs.C03Stats', 'Ladybug.Proofs.C03Samples', 'Ladybug.Drv.C03', 'Ladybug.DrvCore']
+                'Ladybug.Proofs.C03Stats', 'Ladybug.Proofs.C03Samples', 'Ladybug.Proofs.C03Month', 'Ladybug.Proofs.C03Mph', 'Ladybug.Drv.C03', 'Ladybug.DrvCore']
 RULE = ('correspondence: hourly collections built from plain numbers — continuous (whole-day periods: '
         'annual / partial / year-wrapping / wrapping inside one month, 12 timesteps, leap) and '
         'discontinuous (any hour window; datetimes = the period, a subset with holes, shuffled, '
@@ -429,8 +429,8 @@ def correspondence(ctx):
               (6, 15, 0, 6, 15, 23, 60, False), (2, 28, 0, 3, 1, 23, 3, True), (1, 1, 0, 1, 1, 23, 1, False)]
     periods = list(corpus)
     budget = ctx.n(350000, 4000000)
-    while budget > 0 and len(periods) < ctx.n(110, 1500):
-        t = _gen_fullday(rng, 40000 if rng.random() < 0.9 else 120000)
+    while budget > 0 and len(periods) < ctx.n(95, 1500):
+        t = _gen_fullday(rng, 25000 if rng.random() < 0.9 else 70000)
         periods.append(t)
         budget -= len(ref_moys(t))
     cases = []
@@ -575,7 +575,7 @@ def correspondence(ctx):
 
     # ---- plain statistics of a collection
     scases = []
-    for _ in range(ctx.n(1200, 25000)):
+    for _ in range(ctx.n(900, 25000)):
         n = rng.choice([1, 1, 2, 3, 4, 5, 7, 8, 9, 16, 17, 24, 31, rng.randrange(1, 120)])
         kind, vals = _gen_values(rng, n)
         p, pexact = _gen_p(rng)
@@ -874,14 +874,14 @@ def _oracle_cases(ctx):
     for c in ORACLE_CORPUS:
         yield c
     # continuous collections: whole-day periods of every shape
-    nper = 500 if big else 70
+    nper = 500 if big else 56
     for i in range(nper):
-        t = _gen_fullday(rng, 20000 if i % 7 else 70000)
+        t = _gen_fullday(rng, 12000 if i % 7 else 40000)
         for by in ('day', 'month', 'mph'):
             if by == 'mph' and t[6] > 6 and rng.random() < 0.8:
                 continue
             yield 'partition', {'coll': 'cont', 'by': by, 't': list(t)}
-        if i % 3 == 0 and len(ref_moys(t)) <= 30000 and t[6] <= 12:
+        if i % 3 == 0 and len(ref_moys(t)) <= 12000 and t[6] <= 12:
             yield 'cont_vs_disc', {'t': list(t)}
         if t[6] <= 12:
             iv = rng.choice(['daily', 'monthly', 'monthlyperhour'])
@@ -890,7 +890,7 @@ def _oracle_cases(ctx):
             _, vals = _gen_values(rng, len(ref_moys(t)))
             yield 'stats_of_groups', {'coll': 'cont', 'iv': iv, 'stat': stat, 'p': p, 't': list(t), 'vals': vals}
     # discontinuous collections
-    for _ in range(600 if big else 90):
+    for _ in range(600 if big else 72):
         t, dleap, moys, tag = _gen_disc(rng, 1500)
         if tag == 'other-leap':
             continue                         # header and datetimes disagree on the year: not a collection of the statement
@@ -916,7 +916,7 @@ def _oracle_cases(ctx):
         if rng.random() < 0.3:
             doys += [n] if n not in doys else []
         yield 'daily_month', {'leap': leap, 'doys': doys}
-    for _ in range(20000 if big else 1500):
+    for _ in range(20000 if big else 1000):
         n = rng.choice([1, 2, 3, 4, 5, 8, 9, 24, 25, rng.randrange(1, 200)])
         _, vals = _gen_values(rng, n)
         p, _ = _gen_p(rng)
@@ -928,19 +928,22 @@ def oracle(ctx):
     run_oracle_cases(ctx, _oracle_cases(ctx), check_case)
 
 
-LEVEL_TEXT = ('Machine-checked Lean 4 theorems (21) over an executable, value-polymorphic model of the grouping code: '
-              'the datetime-keyed groups (day, month; month-per-hour under a stated side condition) hold at each key '
-              'exactly the values whose own datetime has that key, in collection order, and their concatenation is a '
-              'permutation of the data (nothing lost, duplicated or borrowed); a datetime without key raises KeyError; '
-              'the slice arithmetic of the continuous group_by_day equals the keyed grouping for EVERY whole-day period '
-              '(annual, partial, year-wrapping; 12 timesteps; leap) - proved on top of the C04/C08 theorems; every value '
-              'of average_/total_/percentile_ daily|monthly|... is that statistic of its group in listing order with '
-              'empty groups skipped, and no day with data is skipped; percentile = textbook linear interpolation between '
-              'order statistics with p=0 -> min, p=100 -> max, p=50 -> median, min <= percentile <= max, monotone in p; '
-              'highest/lowest values = first count of the sort with distinct consistent indices; daily collections are '
-              'grouped by the calendar month of their day (all 365+366 days). Partial: continuous group_by_month = keyed '
-              '(kernel-checked on sample periods only; compared on every run). The model is compared with the real classes '
-              'on structure-directed inputs on every run; an independent oracle regroups every value by its stdlib datetime.')
+LEVEL_TEXT = ('Machine-checked Lean 4 theorems (27) over an executable, value-polymorphic model of the grouping code: '
+              'the datetime-keyed groups by day, month and month-per-hour (all 12 timesteps; key list proved '
+              'duplicate-free and complete for grid date-times) hold at each key exactly the values whose own datetime '
+              'has that key, in collection order, and their concatenation is a permutation of the data (nothing lost, '
+              'duplicated or borrowed); a datetime without key (off-grid step, day 366 under a normal-year header) raises '
+              'KeyError; the slice arithmetic of the continuous group_by_day AND group_by_month equals the keyed grouping '
+              'for EVERY whole-day period (annual, partial, year-wrapping, wrapping inside one month; 12 timesteps; leap) '
+              '- proved on top of the C04/C08 theorems and a calendar lemma from a finite check of the month table; '
+              'average_/total_/percentile_ daily|monthly|monthly_per_hour of discontinuous and of continuous collections '
+              'are, end to end, that statistic of exactly the values of each listed day/month/month-hour-minute, in '
+              'listing order with empty groups skipped, and no day with data is skipped; percentile = textbook linear '
+              'interpolation between order statistics with p=0 -> min, p=100 -> max, p=50 -> median, min <= percentile '
+              '<= max, monotone in p; highest/lowest values = first count of the sort with distinct consistent indices '
+              'and stable order of ties; daily collections are grouped by the calendar month of their day (all 365+366 '
+              'days). The model is compared with the real classes on structure-directed inputs on every run; an '
+              'independent oracle regroups every value by its stdlib datetime.')
 LEVEL_NOTE = ('Trusted: Lean kernel; axioms propext/Classical.choice/Quot.sound only; the correspondence run '
               '(agreement on generated inputs only); the AP and Cal models (C04, C08); Python sorted()/OrderedDict '
               'modelled by List.mergeSort / association lists; float arithmetic of the statistics not proved.')
